@@ -161,7 +161,9 @@ def fans_sa(f, coords, P, t=None, wall_distance=None, sa_extra=None, asbuilt=Non
     mut = rho * nu * (frozen if frozen is not None else fv1)
     cv = P['R'] / (P['Gamma'] - 1)
     cp = P['Gamma'] * cv
-    T = p / (rho * P['R'])
+    # f['T'], when given, is an expression the caller has PROVED equal to p/(rho R) on the (open) admissible set; it is then used
+    # as the temperature field (equal functions on an open set have equal derivatives)
+    T = f['T'] if 'T' in f else p / (rho * P['R'])
     ddt = (lambda q: D(q, t)) if t is not None else (lambda q: tm.ZERO)
     div = lambda a, b: D(a, x) + D(b, y)
     dvg = div(u, v)
